@@ -17,9 +17,12 @@
    that is sent, step by step, the files a primary's log gains holds page for page what the
    primary's database file holds, at the same position - for every history from empty nodes.
    The argument is about contents, not checksums: a page that is not in a transaction's file was
-   not in the dirty set, hence is what it was (SameM), hence what the follower already has (Sim). *)
+   not in the dirty set, hence is what it was (SameM), hence what the follower already has (Sim).
+   And on into WAL mode (C01_follower_identical_wal): after the switch, through WAL commits and
+   checkpoints of every kind, the follower's file is the primary's LOGICAL database - the last
+   committed version of a page in the primary's log, else the primary's file. *)
 From Coq Require Import NArith List Bool.
-Require Import LF.Model.PageDB LF.Model.Repl LF.Proofs.ChainProofs LF.Proofs.ReplProofs LF.Proofs.HistoryProofs LF.Proofs.FollowProofs.
+Require Import LF.Model.PageDB LF.Model.Repl LF.Proofs.ChainProofs LF.Proofs.ReplProofs LF.Proofs.ChecksumProofs LF.Proofs.HistoryProofs LF.Proofs.WalHistoryProofs LF.Proofs.WalCheckpointProofs LF.Proofs.SqlCheckpointProofs LF.Proofs.ApplyHistoryProofs LF.Proofs.FollowProofs LF.Proofs.FollowWalProofs.
 Import ListNotations.
 Local Open Scope N_scope.
 
@@ -78,3 +81,39 @@ Example C01_follower_identical_nonvacuous :
   | None => False
   end.
 Proof. exact follower_identical_example. Qed.
+
+(* Into WAL mode.  As above, then the rollback-journal transaction that switches the primary to WAL mode (its file reaches the
+   follower), then [os]: WAL commits, LiteFS checkpoints, pages copied by SQLite, SQLite's complete checkpoint with the restart
+   of the log, in any order ([wf_wops2] as in C04_wal_full_history) - the follower being sent after each step what the
+   primary's log gained ([followw]).  [lpage s p]: the primary's logical page - the last committed version of p in its log
+   ([wpages]), else what its database file holds.  For EVERY such history the follower is at the primary's position and its
+   database file holds the primary's logical database, page for page.  Nothing is assumed about checksums. *)
+Theorem C01_follower_identical_wal : forall lock hs zf acts c os s1 r1 s2 r2 sP sR,
+  1 <= lock -> wf_hist (init lock) hs -> follow (init lock) (init lock) hs = Some (s1, r1) ->
+  wf_tx_any s1 zf acts -> run_group s1 (hops s1 (HTx zf acts c)) = (0, s2) -> wal_mode s2 = true ->
+  run_recv r1 (new_files s1 s2) = Some r2 ->
+  wf_wops2 s2 os -> followw s2 r2 (file_h s2) os = Some (sP, sR) ->
+  txid sR = txid sP /\ chk sR = chk sP /\ pageN sR = pageN sP /\
+  (forall p, 1 <= p <= pageN sP -> p <> lock -> fpg sR p = lpage sP p).
+Proof. exact follower_identical_wal. Qed.
+Print Assumptions C01_follower_identical_wal.
+
+(* Non-vacuity: at the end of this history the primary's database file is behind its log (page 1 is an older version, page 3
+   is not there yet) and the follower's file is the logical database *)
+Example C01_follower_identical_wal_nonvacuous :
+  let pg h := mkPg (fl h) 0 false in
+  let pw h := mkPg (fl h) 0 true in
+  let hs := [HTx [] [AWrite 1 (pg 11); AWrite 2 (pg 12)] 2] in
+  let sw := [AWrite 1 (pw 13)] in
+  let os := [W2Commit [(2, pw 22); (3, pw 33); (2, pw 23)] 3; W2BackfillOld 2 (pw 22); W2Commit [(1, pw 14)] 2; W2Checkpoint;
+             W2Commit [(3, pw 35); (1, pw 15)] 3] in
+  exists s1 r1 s2 r2,
+    wf_hist (init 2097153) hs /\ follow (init 2097153) (init 2097153) hs = Some (s1, r1) /\
+    wf_tx_any s1 [] sw /\ run_group s1 (hops s1 (HTx [] sw 2)) = (0, s2) /\ wal_mode s2 = true /\
+    run_recv r1 (new_files s1 s2) = Some r2 /\ wf_wops2 s2 os /\
+    match followw s2 r2 (file_h s2) os with
+    | Some (sP, sR) => (txid sR, pageN sR, chk sR =? chk sP, map (fpg sR) [1; 2; 3], map (lpage sP) [1; 2; 3], map (fpg sP) [1; 2; 3])
+                       = (5, 3, true, [pw 15; pw 23; pw 35], [pw 15; pw 23; pw 35], [pw 14; pw 23; zero_pg])
+    | None => False
+    end.
+Proof. exact follower_identical_wal_example. Qed.
